@@ -60,6 +60,7 @@ type JWTOpts struct {
 	Aud      string
 	Iss      string // "" = issuer URL
 	Expired  bool
+	ExpIn    time.Duration // non-zero: the token expires that long from now
 	WrongKey bool
 	AlgNone  bool
 }
@@ -76,6 +77,9 @@ func (is *Issuer) Token(o JWTOpts) string {
 	exp := time.Now().Add(time.Hour).Unix()
 	if o.Expired {
 		exp = time.Now().Add(-time.Hour).Unix()
+	}
+	if o.ExpIn != 0 {
+		exp = time.Now().Add(o.ExpIn).Unix()
 	}
 	claims := map[string]any{"iss": iss, "sub": o.Sub, "aud": o.Aud, "exp": exp, "iat": time.Now().Add(-time.Minute).Unix()}
 	h, _ := json.Marshal(hdr)
